@@ -320,8 +320,72 @@ def run_case(lf, table, scratch, cats=False):
     return res
 
 
+def leaf_tag(l):
+    """tag of harness/fmtgen.COLTYPES for a decoded leaf (physical, converted, logical), or None"""
+    for (t, c, lg, tag) in G.COLTYPES:
+        if t == l["type"] and c == l["conv"] and (lg is None) == (l["logical"] is None or l["logical"][0] != 8):
+            return tag
+    if l["type"] == 2 and l["logical"] and l["logical"][0] == 8:
+        return {1: "ts_ms", 2: "ts_us", 3: "ts_ns"}.get(l["logical"][1])
+    return None
+
+
+def _job_testdata(exp):
+    """a third-party file of $REPO/test-data: spec validator/decoder vs the real reader (flat columns)"""
+    import hashlib
+    from harness import fmtlib
+    import fastparquet
+    path = os.path.join(C.REPO, "test-data", exp["file"])
+    data = open(path, "rb").read()
+    res = {"problems": [], "spec": "ok", "valid": "?", "features": {"max_bp_width": -1, "max_delta_width": -1, "v2_delta_int64": False,
+           "v2_delta_with_nulls": False, "v1_rle_bool": False, "v2_rle_bool": False, "raw": False}, "model_bad": [], "model_pages": 0}
+    r = {"verdict": "?"}
+    try:
+        r = fmtlib.Fmt(_pq()).check(data)
+        res["valid"] = r["verdict"] + ((": " + str(r["why"])) if r.get("why") else "")
+    except Exception as e:    # noqa
+        res["valid"] = "harness: %s" % e
+    try:
+        pf = fastparquet.ParquetFile(path)
+        if exp.get("pre") == "dtypes":
+            pf._dtypes(exp["kwargs"].get("categories"))
+        df = pf.to_pandas(**exp.get("kwargs", {}))
+    except Exception as e:   # noqa
+        import traceback
+        res["outcome"] = "raised"
+        res["err"] = "%s: %s" % (type(e).__name__, str(e)[:200])
+        res["tb"] = traceback.format_exc()[-800:]
+        return res
+    res["outcome"] = "ok"
+    res["digest"] = hashlib.sha256(df.to_json(default_handler=repr).encode()).hexdigest()[:16]
+    if r.get("verdict") == "ok":
+        cols = fmtlib.columns_of(r["leaves"], r["rgs"])
+        for l in r["leaves"]:
+            tag = leaf_tag(l)
+            if tag is None or l["name"] not in df.columns:
+                continue
+            lt = dict(l, tag=tag, optional=bool(l["maxdef"]))
+            got = fp_cells(df[l["name"]], lt)
+            exp_cells = cols[l["name"]]
+            if len(got) != len(exp_cells):
+                res["problems"].append(("rows", "column %s: %d cells in the file, %d read" % (l["name"], len(exp_cells), len(got))))
+                continue
+            bad = [(i, e, g) for i, (e, g) in enumerate(zip(exp_cells, got)) if not cell_ok(e, g, lt)]
+            for i, e, g in bad[:2]:
+                res["problems"].append(("decode", "column %s (%s) row %d: file encodes %r, fastparquet returns %r" % (l["name"], tag, i, e, g)))
+    if res["problems"]:
+        res["outcome"] = "differs"
+    return res
+
+
 def _job(job):
     lf, table, expect = job
+    if expect.get("file"):
+        try:
+            return _job_testdata(expect)
+        except Exception:   # noqa
+            import traceback
+            return {"outcome": "harness-error", "err": traceback.format_exc()[-1500:], "problems": []}
     tmp = tempfile.mkdtemp(prefix="verif-C03w-", dir="/tmp")
     try:
         try:
@@ -387,7 +451,10 @@ def run_robust(jobs, scratch, nproc=8, stall=120):
                 break
             results[done + 1] = {"outcome": "crash", "err": ("no progress for %ds (killed)" % stall) if killed else
                                  "reader process died with exit code %s" % p.exitcode, "problems": [],
-                                 "features": features(sub[done + 1][0]), "spec": "ok", "valid": "?"}
+                                 "features": (features(sub[done + 1][0]) if sub[done + 1][0] else
+                                              {"max_bp_width": -1, "max_delta_width": -1, "v2_delta_int64": False, "v2_delta_with_nulls": False,
+                                               "v1_rle_bool": False, "v2_rle_bool": False, "raw": False}),
+                                 "spec": "ok", "valid": "?", "model_bad": [], "model_pages": 0}
             start = done + 2
         return {idxs[i]: r for i, r in results.items()}
 
@@ -411,7 +478,19 @@ def gen_jobs(ctx):
     import glob
     for fn in sorted(glob.glob(os.path.join(C.VERIF, "corpus", "C03", "*.json"))):
         c = json.load(open(fn))
-        jobs.append((c["lfile"], c["table"], c["expect"]))
+        if "file" in c.get("expect", {}):
+            if os.path.exists(os.path.join(C.REPO, "test-data", c["expect"]["file"])):
+                for _ in range(c["expect"].get("repeat", 1)):
+                    jobs.append((None, {}, c["expect"]))
+        else:
+            jobs.append((c["lfile"], c["table"], c["expect"]))
+    # 0b. thorough tier: every intact third-party file of test-data through the spec decoder and the real reader
+    if not quick:
+        td = os.path.join(C.REPO, "test-data")
+        for fn in sorted(os.listdir(td)):
+            p = os.path.join(td, fn)
+            if os.path.isfile(p) and fn.endswith(".parquet") and os.path.getsize(p) > 12:
+                jobs.append((None, {}, {"expect": "testdata", "stream": "test-data", "file": fn, "kwargs": {}}))
     # 1. random layouts in the region the reader is supposed to support
     for _ in range(260 if quick else 6000):
         add({"width": None, "created_by": rng.choice(["spec-encoder", "parquet-mr version 1.12.3"])})
@@ -496,7 +575,28 @@ def run(ctx):
     jobs = gen_jobs(ctx)
     _init()
     results = run_robust(jobs, ctx.scratch)
+    digests = {}
     for (lf, table, exp), res in zip(jobs, results):
+        if exp.get("file"):
+            case = {"expect": exp}
+            ctx.case(case)
+            ctx.count("stream", exp["stream"])
+            ctx.count("outcome", res["outcome"])
+            ctx.count("valid_file(test-data)", "%s: %s" % (exp["file"], res.get("valid", "?")[:70]))
+            cls = {"stage": res["outcome"], "file": exp["file"], "err": (res.get("err") or "").split(":")[0], "stream": exp["stream"],
+                   "spec_verdict": res.get("valid", "?").split(":")[0]}
+            if res["outcome"] == "harness-error":
+                ctx.broken.append({"kind": "harness-error", "name": "test-data", "detail": res["err"]})
+            elif res["outcome"] in ("crash", "differs") or (res["outcome"] == "raised" and exp["stream"] == "corpus"):
+                ctx.fail(cls, case, "%s | %s | %s" % (res.get("err"), "; ".join("%s: %s" % tuple(p) for p in res["problems"])[:800], res.get("tb", "")[-400:]))
+            elif res["outcome"] == "raised":
+                ctx.count("test-data refused", "%s: %s" % (exp["file"], (res.get("err") or "")[:60]))
+            if res.get("digest"):
+                key = json.dumps(exp, sort_keys=True)
+                if key in digests and digests[key] != res["digest"]:
+                    ctx.fail(dict(cls, stage="nondeterministic"), case, "two reads of the same file returned different tables")
+                digests[key] = res["digest"]
+            continue
         case = {"lfile": lf, "table": table, "expect": exp}
         n = sum(len(v) for v in table.values())
         ctx.case(case, trivial=(n == 0))
@@ -536,14 +636,14 @@ def run(ctx):
 
 def replay(rep):
     warnings.filterwarnings("ignore")
-    if rep.get("kind") == "no-failing-input-found" or "lfile" not in rep.get("case", {}):
+    if rep.get("kind") == "no-failing-input-found" or "expect" not in rep.get("case", {}):
         print(json.dumps(rep, indent=1)[:6000])
         return 1
     _init()
     c = rep["case"]
     tmp = tempfile.mkdtemp(prefix="verif-C03r-", dir="/tmp")
     try:
-        res = run_robust([(c["lfile"], c["table"], c["expect"])], tmp, nproc=1)[0]
+        res = run_robust([(c.get("lfile"), c.get("table", {}), c["expect"])], tmp, nproc=1)[0]
     finally:
         shutil.rmtree(tmp, ignore_errors=True)
     print("outcome:", res["outcome"], res.get("err") or "")
